@@ -105,10 +105,15 @@ class LeanBuild:
 
 def theorem_names(prop_id: str) -> list[str]:
     """Names of the theorems in lean/Ramses/Props/<id>.lean (fully qualified)."""
-    src = (LEAN / "Ramses" / "Props" / f"{prop_id}.lean").read_text()
-    ns = re.search(r"^namespace (\S+)", src, re.M)
-    prefix = ns.group(1) + "." if ns else ""
-    return [prefix + n for n in re.findall(r"^theorem (\S+)", src, re.M)]
+    out = []
+    props = LEAN / "Ramses" / "Props"
+    # Props/<id>.lean and its continuation files Props/<id><Suffix>.lean (which <id>.lean imports)
+    for path in [props / f"{prop_id}.lean"] + sorted(q for q in props.glob(f"{prop_id}?*.lean") if q.stem[len(prop_id)].isalpha()):
+        src = path.read_text()
+        ns = re.search(r"^namespace (\S+)", src, re.M)
+        prefix = ns.group(1) + "." if ns else ""
+        out += [prefix + n for n in re.findall(r"^theorem (\S+)", src, re.M)]
+    return out
 
 
 def strip_comments(src: str) -> str:
